@@ -43,7 +43,7 @@ Definition is_timer (g : gop) : bool := match g with GOp (Timer _) => true | _ =
 
 Definition decode_case (l : list N) : option (cfg * list gop) :=
   match pall (let* aa := pBool in let* sd := pBool in let* mask := pN in let* ops := plist p_gop in
-              pret (mkCfg aa sd (fun p => N.testbit mask p), ops)) l with
+              pret (mkCfg aa sd (fun p => (p <? 3) && N.testbit mask p), ops)) l with
   | Some (c, ops) => Some (c, if existsb is_sleep ops then filter (fun g => negb (is_timer g)) ops else ops)
   | None => None
   end.
@@ -124,13 +124,50 @@ Fixpoint grun (c : cfg) (s : st) (l : list gop) : list (st * list uev * list cal
       end
   end.
 
-Definition run_case (l : list N) : list N :=
+Definition run_ecase (l : list N) : list N :=
   match decode_case l with
   | Some (c, ops) =>
       let '(r, fin) := grun c init ops in
       1 :: enc_run r ++ (if fin then [] else [2])
   | None => [0]
   end.
+
+(* ---- lazy-user mode: the dialable mask of a case carries the capacity of the user event channel in
+   its bits 3 and up (0: the eager mode above); kind 25 is one `handle.next()` of the user ---- *)
+Definition case_cap (l : list N) : N := match l with _ :: _ :: mask :: _ => mask / 8 | _ => 0 end.
+
+Definition p_lop : parser lop :=
+  fun l => match l with
+           | 25 :: _ :: _ :: rest => Some (LPoll, rest)
+           | _ => match p_op l with Some (o, rest) => Some (LOp o, rest) | None => None end
+           end.
+
+Definition decode_lcase (l : list N) : option (cfg * list lop) :=
+  pall (let* aa := pBool in let* sd := pBool in let* mask := pN in let* ops := plist p_lop in
+        pret (mkCfg aa sd (fun p => (p <? 3) && N.testbit mask p), ops)) l.
+
+Definition ldump (cap : nat) (l : lst) : list N :=
+  flat_map (fun p => [b2n (hopen (ls l) p); b2n (hval (ls l) p)]) peers_l ++
+  [N.of_nat (Nat.min cap (length (lq l))); b2n (parked cap l)].
+
+Fixpoint enc_lrun (cap : nat) (r : list (lst * list uev * list call)) : list N :=
+  match r with
+  | [] => []
+  | (l, ev, calls) :: t =>
+      1 :: enc_list enc_ev ev ++ enc_list enc_call calls ++ ldump cap l ++ enc_lrun cap t
+  end.
+
+Definition run_lcase (l : list N) : list N :=
+  match decode_lcase l with
+  | Some (c, ops) =>
+      let cap := N.to_nat (case_cap l) in
+      let '(r, fin) := lrun c cap linit ops in
+      1 :: enc_lrun cap r ++ (if fin then [] else [2])
+  | None => [0]
+  end.
+
+Definition run_case (l : list N) : list N :=
+  if case_cap l =? 0 then run_ecase l else run_lcase l.
 
 (* ---- decoding a trace ---- *)
 Record pobs := mkPobs { o_ps : option pstate; o_hsI : bool; o_hsO : bool; o_hopen : bool; o_hval : bool }.
@@ -456,11 +493,75 @@ Definition verdict (case trace : list N) : N :=
   | _, _ => F_GEN
   end.
 
-Definition prop_ok (case trace : list N) : bool := verdict case trace =? 0.
+(* ---- oracle for lazy-user traces: what the user is handed obeys the same event grammar, the loop is
+   never stuck, the channel never holds more than its capacity ---- *)
+Record lobs := mkLobs { lo_ev : list uev; lo_calls : list call; lo_q : N; lo_parked : bool }.
+
+Definition p_lobs : parser lobs :=
+  let* ev := plist p_ev in
+  let* calls := plist p_call in
+  let* _ := prep 6 pN in
+  let* q := pN in
+  let* pk := pBool in
+  pret (mkLobs ev calls q pk).
+
+Fixpoint p_lsteps (fuel : nat) : parser (list lobs * bool) :=
+  fun l =>
+    match fuel with
+    | O => None
+    | S f =>
+        match l with
+        | [] => Some (([], false), [])
+        | [2] => Some (([], true), [])
+        | 1 :: rest =>
+            match p_lobs rest with
+            | Some (o, rest') =>
+                match p_lsteps f rest' with
+                | Some ((t, b), r) => Some ((o :: t, b), r)
+                | None => None
+                end
+            | None => None
+            end
+        | _ => None
+        end
+    end.
+
+Fixpoint lcheck (cap : N) (opened gated : peer -> bool) (ops : list lop) (tr : list lobs) : N :=
+  match ops, tr with
+  | g :: ops', x :: tr' =>
+      let gated' :=
+        match g with
+        | LOp (Gate q) | LOp (TaskDie q true) | LOp (NotifyDie q true) => upd gated q true
+        | _ => gated   (* deliveries lag behind: a slow close earlier in the case may show up any time later *)
+        end in
+      let gg := fun q => gated q || gated' q in
+      let '(opened', fg) := grammar opened gg (lo_ev x) in
+      N.lor (N.lor fg (flag (lo_q x <=? cap) F_GEN)) (lcheck cap opened' gated' ops' tr')
+  | _, _ => 0
+  end.
+
+Definition lverdict (case trace : list N) : N :=
+  match decode_lcase case, trace with
+  | Some (c, ops), 1 :: body =>
+      match pall (p_lsteps (S (length ops))) body with
+      | Some (tr, stuck) =>
+          if stuck then F_GEN
+          else if negb (Nat.eqb (length tr) (length ops)) then F_GEN
+          else lcheck (case_cap case) (fun _ => false) (fun _ => false) ops tr
+      | None => F_GEN
+      end
+  | None, [0] => 0
+  | _, _ => F_GEN
+  end.
+
+Definition verdict_any (case trace : list N) : N :=
+  if case_cap case =? 0 then verdict case trace else lverdict case trace.
+
+Definition prop_ok (case trace : list N) : bool := verdict_any case trace =? 0.
 
 (* class 1: KNOWN_FINDINGS "slow close"; class 2: "failed substream id kept pending"; class 3: "the
    user's Reject drops the user's own open request without an answer" *)
 Definition known_class (case trace : list N) : N :=
-  let v := verdict case trace in
+  let v := verdict_any case trace in
   if N.testbit v 0 then 0 else if N.testbit v 1 then 1 else if N.testbit v 2 then 2
   else if N.testbit v 3 then 3 else 0.
